@@ -254,8 +254,12 @@ Fragment, Optimize, Merge, WebVTT tag-nesting and scanner repairs beyond these.
 `./check selftest` runs every quick check and, after each trace validation, re-validates one accepted trace file
 twice with a single observed field corrupted (a cue end after an operation, the first integer of a projected
 reader result, a re-read instant, a dropped scanner token, a result digest, an outcome, the end of the first cue of
-a converted file). Every trace specification must flag exactly the corrupted event: 15 trace specifications, 30
-corrupted events, all rejected (`selftest_result.json`, 6 minutes).
+a converted file, the text-preserved flag of a conversion, the receiving flag the teletext hook observed at a packet).
+Every trace specification must flag exactly the corrupted event: 16 trace specifications, 32 corrupted events, all
+rejected. It then model-checks the seven variants of the specification that describe a tree *with* a defect (the pinned
+scanner with its three flags, the pinned writers, the writers after the first repair, the leaky concurrency model, the
+pinned Optimize): TLC must find the violation in each. Last run: 39 of 39 (`selftest_result.json`, 13 minutes next to
+a thorough run).
 
 ### 10.8 Per property: what the check enumerates, how it is bound, what the last run covered
 
